@@ -55,8 +55,14 @@ def handle (toks : List String) : Option String :=
         | _ => none
       -- `alias2`: an alias of an alias = two passes through the rebuilt line; every other
       -- wrapper = one pass (`aliasjump` wraps the jumping twin of `cap`)
+      -- `aliasdeep`: m41 is an alias of m40 … m1 an alias of cap: 41 passes, the rebuilt lines name
+      -- m40, m39, …, m1, cap
+      let deep : Option (List Str) :=
+        (List.range 41).foldl (fun acc i =>
+          acc.bind fun l => once (if i < 40 then ("m" ++ toString (40 - i)).toList else capName) l) (some vl)
       let arrived :=
-        if wrapper == "alias2" then (once "mid".toList vl).bind (once capName)
+        if wrapper == "aliasdeep" then deep
+        else if wrapper == "alias2" then (once "mid".toList vl).bind (once capName)
         else if wrapper == "aliasjump" then once "capjump".toList vl
         else once capName vl
       let wrapped := match arrived with | some as => "call:" ++ encList as | none => "nocall"
